@@ -2,7 +2,8 @@
 import re
 
 from .. import lib, mir
-from ..mir import render
+from .. import lib_sec as S
+from ..mir import render, strip_generics
 
 EXPLANATION = ("plaintext: the handshake returns Ok only when the announced peer id equals the announced key's peer id, returns that key, "
                "and hands the codec's unread buffer to Output, whose poll_read serves that buffer before touching the socket. pnet: "
@@ -16,7 +17,17 @@ N = "libp2p_pnet"
 
 
 def oks(b):
-    return [mir.Site(b, x[1], x[2]) for x in b.defs[0] if x[0] == "stmt" and render(b.rvalue_expr(x[3])).startswith("std::result::Result::Ok{")]
+    return S.ok_sites(b)
+
+
+def field_of_type(prog, crate, adt_pat, ty_pat, default):
+    a = prog.adt(crate, adt_pat)
+    hits = [f["n"] for f in a["variants"][0]["fields"] if re.search(ty_pat, f.get("ty") or "")]
+    return hits[0] if len(hits) == 1 else default
+
+
+def callee_is(e, pat):
+    return e[0] == "call" and re.search(pat, strip_generics(e[1])) is not None
 
 
 def check(ctx):
@@ -24,55 +35,85 @@ def check(ctx):
     h = ctx.body(P, r"handshake::handshake::\{closure#0\}$", "coroutine")
     ho = oks(h)
     ctx.floor("plaintext", "Ok return of handshake", ho, 1)
+
+    def announced_id(e):      # PeerId::from_bytes(<received exchange>.id ..)
+        return S.has_call(e, r"PeerId::from_bytes$") and S.has_field(e, "id") and not S.has_call(e, r"PublicKey::to_peer_id$")
+
+    def announced_key_id(e):  # PublicKey::try_decode_protobuf(<received exchange>.pubkey ..).to_peer_id()
+        e = S.peel(e)
+        return callee_is(e, r"PublicKey::to_peer_id$") and S.has_call(e, r"PublicKey::try_decode_protobuf$") and S.has_field(e, "pubkey")
+    ids = S.rel_edges(h, announced_id, announced_key_id)
     for s in ho:
-        ctx.guarded("plaintext", "Ok only if announced id == id of announced key", s,
-                    lambda c, r, l: l == "false" and r.startswith("std::cmp::PartialEq::ne(") and "to_peer_id(" in r, "peer_id == public_key.to_peer_id()")
-        r = render(h.site_expr(s))
-        ctx.ob("plaintext", "leftover bytes come from the codec's read buffer", "2: bytes::BytesMut::freeze(asynchronous_codec::Framed::into_parts(framed_socket).read_buffer)" in r, s.loc(), r[-160:])
-        ctx.ob("plaintext", "socket is the codec's io", "0: asynchronous_codec::Framed::into_parts(framed_socket).io" in r, s.loc(), r[:160])
+        S.guarded(ctx, "plaintext", "Ok only if announced id == id of announced key", s, ids["eq"], "peer_id == public_key.to_peer_id()")
+        tup = dict(h.site_expr(s)[4]).get("0", ("unknown", ""))
+        parts = dict(tup[4]) if tup[0] == "agg" else {}
+
+        def codec_part(x, fld):
+            x = S.peel(x)
+            if callee_is(x, r"BytesMut::freeze$"):
+                x = S.peel(x[2][0])
+            return (x[0] == "field" and x[2] == fld and callee_is(x[1], r"Framed::into_parts$") and callee_is(S.expand(h, x[1][2][0]), r"Framed::new$")
+                    and S.has(S.expand(h, x[1][2][0]), lambda y: y[0] == "upvar"))
+        ctx.ob("plaintext", "leftover bytes come from the codec's read buffer", "2" in parts and codec_part(parts["2"], "read_buffer"), s.loc(), S.nrender(parts.get("2", tup))[-160:])
+        ctx.ob("plaintext", "socket is the codec's io", "0" in parts and codec_part(parts["0"], "io"), s.loc(), S.nrender(parts.get("0", tup))[:160])
     mm = h.agg_sites(r"error::Error$", "PeerIdMismatch")
     for s in mm:
-        ctx.guarded("plaintext", "PeerIdMismatch exactly on mismatch", s, lambda c, r, l: l == "true" and r.startswith("std::cmp::PartialEq::ne("), "peer_id != public_key.to_peer_id()")
-    ne = [bi for bi in h.live if h.switch_info(bi) and render(h.switch_info(bi)[0]).startswith("std::cmp::PartialEq::ne(")]
-    mir.RENDER_MAX[0] = 30
-    for bi in ne:
-        cond = h.switch_info(bi)[0]
-        a, b2 = render(cond[2][0]), render(cond[2][1])
-        ctx.ob("plaintext", "compared id is the announced id, key is the announced key",
-               "PeerId::from_bytes(" in a and ".id" in a and "to_peer_id(" in b2 and "try_decode_protobuf(" in b2 and ".pubkey" in b2, "%s:%d" % (h.file, h.blocks[bi]["term"].get("l", 0)), (a + " != " + b2)[:400])
+        S.guarded(ctx, "plaintext", "PeerIdMismatch exactly on mismatch", s, ids["ne"] - ids["lt"] - ids["gt"], "peer_id != public_key.to_peer_id()")
+    cmps = [bi for bi in h.live if h.switch_info(bi) and S.cmp_of(h.switch_info(bi)[0]) and
+            any(announced_id(x) for x in S.cmp_of(h.switch_info(bi)[0])[1:]) and any(announced_key_id(x) for x in S.cmp_of(h.switch_info(bi)[0])[1:])]
+    ctx.ob("plaintext", "compared id is the announced id, key is the announced key", len(cmps) >= 1, "%s:%d" % (h.file, h.blocks[cmps[0]]["term"].get("l", 0)) if cmps else "",
+           "PeerId::from_bytes(remote.id) is compared with try_decode_protobuf(remote.pubkey).to_peer_id()")
+    checked_keys = []
+    for bi in cmps:
+        for x in S.cmp_of(h.switch_info(bi)[0])[1:]:
+            if announced_key_id(x):
+                checked_keys.append(S.peel(S.peel(x)[2][0]))
     for s in ho:
-        r = render(h.site_expr(s))
-        ctx.ob("plaintext", "returned key is the announced (checked) key", re.search(r"1: <std::result::Result as std::ops::Try>::branch\(libp2p_identity::PublicKey::try_decode_protobuf\(", r) is not None, s.loc(), r[:300])
-    mir.RENDER_MAX[0] = 14
+        tup = dict(h.site_expr(s)[4]).get("0", ("unknown", ""))
+        k = S.peel(dict(tup[4]).get("1", ("unknown", ""))) if tup[0] == "agg" else ("unknown", "")
+        ctx.ob("plaintext", "returned key is the announced (checked) key", any(S.same(k, c) for c in checked_keys), s.loc(), S.nrender(k)[:300])
     up = ctx.body(P, r"^libp2p_plaintext::Config::handshake::\{closure#0\}$", "coroutine")
     outs = up.agg_sites(r"^libp2p_plaintext::Output$")
     ctx.floor("plaintext", "Output construction", outs, 1)
+    RB = field_of_type(prog, P, r"^libp2p_plaintext::Output$", r"Bytes$", "read_buffer")
     for s in outs:
-        r = render(up.site_expr(s))
-        ctx.ob("plaintext", "Output.read_buffer = handshake's leftover bytes", re.search(r"read_buffer: .*@Continue\.0\.2", r) is not None, s.loc(), r[-200:])
-    pr = ctx.body(P, r"<Output as futures::AsyncRead>::poll_read$")
+        x = S.norm(dict(up.site_expr(s)[4]).get(RB, ("unknown", "")))
+        ok = x[0] == "field" and x[2] == "2" and callee_is(x[1], r"^ok$") and S.has_call(x[1], r"handshake::handshake(::\{closure#0\})?$")
+        ctx.ob("plaintext", "Output.read_buffer = handshake's leftover bytes", ok, s.loc(), render(x)[-200:])
+    pr = S.canon_args(ctx.body(P, r"<Output as futures::AsyncRead>::poll_read$"), ["self", "cx", "buf"])
+    rnp = S.recv_norm(pr)
+    VP = S.view(pr)
     sock = pr.call_sites(r"AsyncRead>::poll_read$|AsyncRead::poll_read$")
     ctx.floor("plaintext", "socket read", sock, 1)
+    drained, _ = S.truth_edges(pr, lambda c: callee_is(c, r"Bytes::is_empty$") and S.self_field(rnp(c[2][0]), RB))
+    blen = S.rel_edges(pr, lambda e: callee_is(e, r"Bytes::len$") and S.self_field(rnp(e[2][0]), RB), lambda e: S.cval(e) == 0)
     for s in sock:
-        ctx.guarded("plaintext", "socket read only when the handshake buffer is empty", s,
-                    lambda c, r, l: (l == "true" and re.match(r"^bytes::Bytes::is_empty\(.*read_buffer\)$", r) is not None) or (l == "false" and r.startswith("Not(bytes::Bytes::is_empty(")), "read_buffer.is_empty()")
+        S.guarded(ctx, "plaintext", "socket read only when the handshake buffer is empty", s, drained | blen["le"], "read_buffer.is_empty()")
     sp = pr.call_sites(r"Bytes::split_to$")
     cp = pr.call_sites(r"copy_from_slice$")
-    ok = len(sp) == 1 and re.search(r"split_to\(.*read_buffer, std::cmp::min\(core::slice::len\(buf\), bytes::Bytes::len\(.*read_buffer\)\)\)$", render(pr.site_expr(sp[0]))) is not None
-    ctx.ob("plaintext", "buffered bytes are handed out in order, n = min(buf.len, buffered)", ok and len(cp) == 1, sp[0].loc() if sp else "", render(pr.site_expr(sp[0]))[:200] if sp else "")
+    RBX = re.escape("self." + RB)
+    ok = len(sp) == 1 and re.search(r"split_to\(%s, std::cmp::min\((core::slice::len\(buf\), bytes::Bytes::len\(%s\)|bytes::Bytes::len\(%s\), core::slice::len\(buf\))\)\)$" % (RBX, RBX, RBX), VP(pr.site_expr(sp[0]))) is not None
+    ctx.ob("plaintext", "buffered bytes are handed out in order, n = min(buf.len, buffered)", ok and len(cp) == 1, sp[0].loc() if sp else "", VP(pr.site_expr(sp[0]))[:200] if sp else "")
     # ---- pnet writer
-    w = ctx.body(N, r"crypt_writer::CryptWriter as futures::AsyncWrite>::poll_write$")
+    w = S.canon_args(ctx.body(N, r"crypt_writer::CryptWriter as futures::AsyncWrite>::poll_write$"), ["self", "cx", "buf"])
+    VW = S.view(w)
+    WB = field_of_type(prog, N, r"crypt_writer::CryptWriter$", r"Vec<u8>$", "buf")
     fl = w.call_sites(r"crypt_writer::poll_flush_buf$")
     bw = w.call_sites(r"<std::vec::Vec as futures::AsyncWrite>::poll_write$")
     ak = w.call_sites(r"StreamCipher::apply_keystream$")
     ctx.floor("pnet-write", "flush / buffer write / keystream", fl + bw + ak, 4)
+    flushed = set()
+    for s in fl:
+        flushed |= S.call_outcome_edges(w, s)[0]
+    accepted = set()
     for s in bw:
-        ctx.guarded("pnet-write", "bytes accepted only after the buffer was flushed", s,
-                    lambda c, r, l: l == "Continue" and "poll_flush_buf(" in r and "@Ready.0" in r, "poll_flush_buf == Ready(Ok)")
+        accepted |= S.call_outcome_edges(w, s)[0]
+    for s in bw:
+        S.guarded(ctx, "pnet-write", "bytes accepted only after the buffer was flushed", s, flushed, "poll_flush_buf == Ready(Ok)")
     for s in ak:
-        ctx.guarded("pnet-write", "keystream applied only to accepted bytes", s, lambda c, r, l: l == "Ok" and "AsyncWrite>::poll_write(" in r and r.endswith("@Ready.0)"), "buffer write == Ready(Ok(count))")
-        r = render(w.site_expr(s))
-        ctx.ob("pnet-write", "keystream over exactly buf[0..count]", re.search(r"apply_keystream\(this\.cipher, <std::vec::Vec as std::ops::IndexMut>::index_mut\(this\.buf, std::ops::Range::Range\{start: 0, end: .*@Ready\.0@Ok\.0\}\)\)$", r) is not None, s.loc(), r[:260])
+        S.guarded(ctx, "pnet-write", "keystream applied only to accepted bytes", s, accepted, "buffer write == Ready(Ok(count))")
+        r = VW(w.site_expr(s))
+        ctx.ob("pnet-write", "keystream over exactly buf[0..count]", re.search(r"apply_keystream\(self\.\w+, <std::vec::Vec as std::ops::IndexMut>::index_mut\(self\.%s, std::ops::Range::Range\{start: 0, end: ok\(ready\(<std::vec::Vec as futures::AsyncWrite>::poll_write\(.*\)\)\)\}\)\)$" % re.escape(WB), r) is not None, s.loc(), r[:260])
     # poll_flush_buf: bytes the inner writer accepted are removed from the buffer before *any* exit (otherwise the next
     # flush sends the same ciphertext again and the peer's keystream position no longer matches)
     fb = ctx.body(N, r"crypt_writer::poll_flush_buf$")
@@ -82,8 +123,8 @@ def check(ctx):
             continue
         for d in ds:
             if d[0] == "stmt":
-                r = render(fb.rvalue_expr(d[3]))
-                if r.startswith("AddWithOverflow(") and r.endswith(".0") and "AsyncWrite::poll_write(" in r and "@Ready.0@Ok.0" in r:
+                r = S.nrender(fb.rvalue_expr(d[3]))
+                if r.startswith("AddWithOverflow(") and r.endswith(".0") and "AsyncWrite::poll_write(" in r and "ok(ready(" in r:
                     acc.append((l, mir.Site(fb, d[1], d[2])))
     drains = [s for s in fb.call_sites(r"Vec::drain$|Vec::drain::<|Vec::split_off$|Vec::clear$|Vec::truncate$")]
     ctx.floor("pnet-flush", "progress accumulation", acc, 1)
@@ -107,27 +148,32 @@ def check(ctx):
                "every path from `%s += n` to a return passes buf.drain(..%s)" % (nm, nm) if not bad else
                "a return is reachable after progress without draining the buffer (return blocks %s)" % bad)
     for s in drains:
-        e = render(fb.site_expr(s))
-        ctx.ob("pnet-flush", "drain removes exactly the written prefix", any(("end: %s" % (fb.names.get(l) or "")) in e for l, _ in acc) and "RangeTo" in e, s.loc(), e[:160])
-    okw = lib.switch_edges_on(w, r"^discr\(<std::vec::Vec as futures::AsyncWrite>::poll_write\(.*@Ready\.0\)$", {"Ok"})
-    for _, t in okw:
+        e = fb.site_expr(s)
+        rng = e[2][1] if len(e[2]) > 1 else ("unknown", "")
+        end = dict(rng[4]).get("end") if rng[0] == "agg" and "RangeTo" in strip_generics(rng[2]) and "Inclusive" not in strip_generics(rng[2]) else None
+        ctx.ob("pnet-flush", "drain removes exactly the written prefix", end is not None and any(S.is_local(end, l) for l, _ in acc), s.loc(), render(e)[:160])
+    for _, t in set().union(*[S.call_outcome_edges(w, x, close=False)[0] for x in bw]):
         got = lib.count_range(w, [t], w.return_blocks(), lib.bbs(ak))
         ctx.ob("pnet-write", "keystream applied exactly once per accepted write", got == (1, 1), msg="apply_keystream on the Ok(count) edge: %s" % (got,))
-    res = [mir.Site(w, x[1], x[2]) for x in w.defs[0] if x[0] == "stmt" and "AsyncWrite>::poll_write(" in render(w.rvalue_expr(x[3]))]
+    res = [x for x in S.ret_sites(w) if callee_is(w.site_expr(x), r"<std::vec::Vec as futures::AsyncWrite>::poll_write$")]
     ctx.ob("pnet-write", "reports the accepted byte count", len(res) == 1, msg="result = res")
-    wr = ctx.body(N, r"<PnetOutput as futures::AsyncRead>::poll_read$")
+    wr = S.canon_args(ctx.body(N, r"<PnetOutput as futures::AsyncRead>::poll_read$"), ["self", "cx", "buf"])
+    VR = S.view(wr)
     ak2 = wr.call_sites(r"StreamCipher::apply_keystream$")
     ctx.floor("pnet-read", "keystream in poll_read", ak2, 1)
+    inner_reads = wr.call_sites(r"AsyncRead>::poll_read$|AsyncRead::poll_read$")
+    got_bytes = set()
+    for s in inner_reads:
+        got_bytes |= S.call_outcome_edges(wr, s)[0]
     for s in ak2:
-        ctx.guarded("pnet-read", "decrypt only what was read", s, lambda c, r, l: l == "Ok" and "poll_read(" in r and r.endswith("@Ready.0)"), "inner read == Ready(Ok(size))")
-        r = render(wr.site_expr(s))
-        ctx.ob("pnet-read", "keystream over exactly buf[..size]", re.search(r"apply_keystream\(.*\.read_cipher, core::slice::index::index_mut\(buf, std::ops::RangeTo::RangeTo\{end: .*poll_read\(.*@Ready\.0@Ok\.0\}\)\)$", r) is not None, s.loc(), r[:260])
-    okr = lib.switch_edges_on(wr, r"^discr\(.*poll_read\(.*@Ready\.0\)$", {"Ok"})
-    for _, t in okr:
+        S.guarded(ctx, "pnet-read", "decrypt only what was read", s, got_bytes, "inner read == Ready(Ok(size))")
+        r = VR(wr.site_expr(s))
+        ctx.ob("pnet-read", "keystream over exactly buf[..size]", re.search(r"apply_keystream\(self\.\w+, core::slice::index::index_mut\(buf, std::ops::RangeTo::RangeTo\{end: ok\(ready\(futures::(io::)?AsyncRead::poll_read\(.*, cx, buf\)\)\)\}\)\)$", r) is not None, s.loc(), r[:260])
+    for _, t in set().union(*[S.call_outcome_edges(wr, x, close=False)[0] for x in inner_reads]):
         got = lib.count_range(wr, [t], wr.return_blocks(), lib.bbs(ak2))
         ctx.ob("pnet-read", "keystream applied exactly once per read", got == (1, 1), msg="apply_keystream on the Ok(size) edge: %s" % (got,))
-    r0 = [render(wr.site_expr(mir.Site(wr, x[1], x[2]))) for x in wr.defs[0]]
-    ctx.ob("pnet-read", "inner result returned unchanged", len(r0) == 1 and (r0[0] == "result" or "poll_read(" in r0[0]), msg=str(r0)[:160])
+    r0 = [wr.site_expr(x) for x in S.ret_sites(wr)]
+    ctx.ob("pnet-read", "inner result returned unchanged", len(r0) == 1 and len(inner_reads) == 1 and r0[0][0] == "call" and r0[0][3] == inner_reads[0].bb, msg=str([render(x) for x in r0])[:160])
     # ---- key file literals
     tk = ctx.body(N, r"^libp2p_pnet::PreSharedKey::to_key_file$")
     lit = None
@@ -139,21 +185,26 @@ def check(ctx):
                     lit = str(t)
     fs = ctx.body(N, r"<PreSharedKey as std::str::FromStr>::from_str$")
     req = []
+    hdr_eq = {}
     for bi in sorted(fs.live):
         info = fs.switch_info(bi)
-        if info:
-            m = re.search(r"ne\(.*\[(\d)\], '([^']*)'\)$", render(info[0]))
-            if m:
-                req.append((int(m.group(1)), m.group(2)))
-    req.sort()
+        cm = S.cmp_of(info[0]) if info else None
+        if cm and cm[0] in ("eq", "ne"):
+            for x, y in ((cm[1], cm[2]), (cm[2], cm[1])):
+                if y[0] == "str" and x[0] == "cindex" and not x[3]:
+                    req.append((x[2], y[1]))
+                    hdr_eq[(x[2], y[1])] = S.rel_edges(fs, lambda e, x=x: S.same(e, x), lambda e, y=y: e[0] == "str" and e[1] == y[1])["eq"]
     ctx.ob("keyfile", "from_str requires the two header lines", [x for _, x in req] == ["/key/swarm/psk/1.0.0/", "/base16/"], "%s:%d" % (fs.file, fs.line), str(req))
     ctx.ob("keyfile", "to_key_file writes exactly those header lines", lit is not None and len(req) == 2 and (req[0][1] + "\\n" + req[1][1] + "\\n") in lit, "%s:%d" % (tk.file, tk.line), "format literal: %s" % lit)
     ph = fs.call_sites(r"^libp2p_pnet::parse_hex_key$")
+    for (k, lit), edges in sorted(hdr_eq.items()):
+        for x in ph:
+            S.guarded(ctx, "keyfile", "key line is parsed only after header line %d matched" % k, x, edges, "lines[%d] == %r" % (k, lit))
     ok = len(ph) == 1 and "[2]" in render(fs.site_expr(ph[0]))
     ctx.ob("keyfile", "third line is the hex key", ok, ph[0].loc() if ph else "", render(fs.site_expr(ph[0]))[:160] if ph else "")
     # ---- no panic on arbitrary text
     inv, seen = lib.panic_inventory(prog, N, [fs], depth=2)
-    pk = ctx.body(N, r"^libp2p_pnet::parse_hex_key$")
+    pk = S.canon_args(ctx.body(N, r"^libp2p_pnet::parse_hex_key$"), ["s"])
     stridx = [(b, s) for b, k, det, s in inv if k == "index" and re.search(r"core::str::traits::.*index", b.call_name(s.term))]
     for b, s in stridx:
         ctx.guarded("nopanic", "str range index only on ASCII text (byte offsets are char boundaries)", s,
